@@ -2,8 +2,10 @@ package props
 
 import (
 	"bytes"
+	"encoding/json"
 	"fmt"
 	"math/rand"
+	"net/url"
 	"regexp"
 	"strings"
 
@@ -296,6 +298,133 @@ func c03Denorm(env *core.Env, k int) core.CaseResult {
 	return res
 }
 
+// hasRef reports a "$ref" member anywhere in v.
+func hasRef(v interface{}) string {
+	switch x := v.(type) {
+	case map[string]interface{}:
+		if r, ok := x["$ref"].(string); ok {
+			return r
+		}
+		for _, w := range x {
+			if r := hasRef(w); r != "" {
+				return r
+			}
+		}
+	case []interface{}:
+		for _, w := range x {
+			if r := hasRef(w); r != "" {
+				return r
+			}
+		}
+	}
+	return ""
+}
+
+// c03WholeBaseDocument: a schema that is not the document at the base location but refers to that whole document by name (directly,
+// below a keyword, or through another document). Nothing here is cyclic: no $ref may remain, with or without AbsoluteCircularRef.
+func c03WholeBaseDocument(k int, res *core.CaseResult) {
+	const base = "file:///w/schemas/item.json"
+	docs := map[string]string{
+		base:                               `{"title":"item","type":"object","properties":{"p":{"title":"p of item","type":"string"}}}`,
+		"file:///w/schemas/sub/other.json": `{"definitions":{"viaParent":{"$ref":"../item.json"},"wrapped":{"title":"wrapped","allOf":[{"$ref":"../item.json"}]}}}`,
+	}
+	text := []string{`{"$ref":"item.json"}`, `{"title":"outer","properties":{"a":{"$ref":"item.json"},"b":{"$ref":"item.json"}}}`, `{"$ref":"sub/other.json#/definitions/viaParent"}`,
+		`{"title":"outer","items":{"$ref":"sub/other.json#/definitions/wrapped"}}`, `{"title":"outer","allOf":[{"$ref":"file:///w/schemas/item.json"}]}`, `{"$ref":"./item.json#"}`}[k%6]
+	abs := k/6 == 1
+	loader := func(u string) (json.RawMessage, error) {
+		if d, ok := docs[u]; ok {
+			return json.RawMessage(d), nil
+		}
+		return nil, fmt.Errorf("no document at %s", u)
+	}
+	s := new(spec.Schema)
+	_ = json.Unmarshal([]byte(text), s)
+	err, pan := guard(func() error {
+		return spec.ExpandSchemaWithBasePath(s, nil, &spec.ExpandOptions{RelativeBase: base, PathLoader: loader, AbsoluteCircularRef: abs})
+	})
+	res.Evals++
+	res.Count("whole-base-document-referenced-by-name", 1)
+	out, _ := oracle.Norm(s)
+	wit := map[string]interface{}{"entry": "ExpandSchemaWithBasePath", "base": base, "documents": docs, "schema": json.RawMessage(text), "absolute_circular_ref": abs, "output": out}
+	switch {
+	case pan != "" || err != nil:
+		res.Violate("whole-base-document: expansion fails", fmt.Sprintf("%v %s", err, pan), wit)
+	case hasRef(out) != "":
+		res.Violate("ref-left-in-acyclic-world (schema referring to the whole base document)", fmt.Sprintf("$ref %q remains in %s", hasRef(out), core.Abbrev(oracle.Text(out), 300)), wit)
+	case !strings.Contains(oracle.Text(out), "p of item"):
+		res.Violate("whole-base-document: content of the base document missing", core.Abbrev(oracle.Text(out), 300), wit)
+	}
+}
+
+// c03NoBase: whole-spec expansion of a single, self-contained document without any base location. The cut-points are absolute URLs
+// when the option asks for them (the pseudo location the package gives the root), fragment-only otherwise - as with a base.
+func c03NoBase(env *core.Env, idx int, res *core.CaseResult) {
+	rng := core.Rng(env.Seed, "C03/no-base", idx)
+	w := gen.GenWorld(rng, gen.WorldOpts{NDocs: 1, FragmentOnly: true, Cyclic: true, Nested: rng.Intn(2) == 0, Elements: 2 + rng.Intn(2), MaxDepth: 1 + rng.Intn(2), RefDensity: 0.6})
+	in := oworld(w)
+	if in.Acyclic(oracle.SpecStarts(in, w.Root, true)) {
+		return
+	}
+	text, _ := json.Marshal(w.Docs[w.Root])
+	for _, abs := range []bool{true, false} {
+		sw := new(spec.Swagger)
+		_ = json.Unmarshal(text, sw)
+		err, pan := guard(func() error {
+			return spec.ExpandSpec(sw, &spec.ExpandOptions{AbsoluteCircularRef: abs, PathLoader: func(u string) (json.RawMessage, error) { return nil, fmt.Errorf("nothing to load: %s", u) }})
+		})
+		res.Evals++
+		if pan != "" || err != nil {
+			res.Count("expansion-failed", 1)
+			continue
+		}
+		res.Count("no-base-location", 1)
+		out, _ := oracle.Norm(sw)
+		b, _ := json.Marshal(out)
+		var plain interface{}
+		_ = json.Unmarshal(b, &plain)
+		wit := map[string]interface{}{"entry": "ExpandSpec without RelativeBase", "document": w.Docs[w.Root], "absolute_circular_ref": abs, "output": plain}
+		var walk func(v interface{}, ptr string)
+		walk = func(v interface{}, ptr string) {
+			switch x := v.(type) {
+			case map[string]interface{}:
+				if r, ok := x["$ref"].(string); ok {
+					res.Count("kept-refs(no-base)", 1)
+					u, perr := url.Parse(r)
+					switch {
+					case perr != nil:
+						res.Violate("kept-ref-unparsable (no base)", r, wit)
+					case abs && (u.Scheme == "" || !strings.HasPrefix(u.Path, "/")):
+						res.Violate("kept-ref-not-absolute (no base location)", fmt.Sprintf("%s holds $ref %q with AbsoluteCircularRef", ptr, r), wit)
+					case !abs && !strings.HasPrefix(r, "#"):
+						res.Violate("kept-ref-into-root-not-fragment-only (no base location)", fmt.Sprintf("%s holds $ref %q", ptr, r), wit)
+					default:
+						frag := "/" + strings.TrimPrefix(u.EscapedFragment(), "/")
+						if dec, derr := url.PathUnescape(frag); derr == nil {
+							st := oracle.State{Doc: w.Root, Ptr: dec}
+							if _, ok := in.Lookup(st); !ok {
+								res.Violate("kept-ref-unresolvable (no base location)", fmt.Sprintf("%s holds $ref %q", ptr, r), wit)
+							}
+						}
+					}
+					return
+				}
+				for k, c := range x {
+					walk(c, ptr+"/"+oracle.EscapeToken(k))
+				}
+			case []interface{}:
+				for i, c := range x {
+					walk(c, fmt.Sprintf("%s/%d", ptr, i))
+				}
+			}
+		}
+		for _, sec := range []string{"definitions", "parameters", "responses", "paths"} {
+			if m, ok := plain.(map[string]interface{}); ok {
+				walk(m[sec], "/"+sec)
+			}
+		}
+	}
+}
+
 func c03NumCases(env *core.Env) int { return c02NumCases(env) + c09TwinWorlds + c03DenormCases }
 
 func c03Run(env *core.Env, idx int) core.CaseResult {
@@ -315,6 +444,12 @@ func c03Run(env *core.Env, idx int) core.CaseResult {
 	in := oworld(w)
 	starts := oracle.SpecStarts(in, w.Root, true)
 	acyclic := in.Acyclic(starts)
+	if idx < 12 {
+		c03WholeBaseDocument(idx, &res)
+	}
+	if idx%8 == 0 {
+		c03NoBase(env, idx, &res)
+	}
 	countFeatures(&res, w)
 	res.Hash = core.HashOf(w.Docs)
 	res.NonTrivial = !acyclic || w.Slots >= 3
@@ -399,11 +534,12 @@ func init() {
 		Level: "exploration",
 		Rule: "same worlds as C02; monitor = every $ref left at a schema/parameter/response/path-item position resolves from the root location to a node on an input reference cycle (O-CYC); none in acyclic worlds, " +
 			"acyclic outputs byte-identical over R runs; surface form absolute / fragment-only as the option demands; plus the pure rewriting of kept $refs (hook H5 denormalizeRef) over an enumerated set of " +
-			"root locations x absolute targets: the rewritten text must designate the same target from the root location. non-trivial = world has a cycle or >= 3 $refs",
+			"root locations x absolute targets: the rewritten text must designate the same target from the root location; plus ExpandSchemaWithBasePath of schemas that refer to the whole document at the base location by name " +
+			"(nothing may remain), and ExpandSpec of self-contained cyclic documents without any base location (cut-points absolute with the option, fragment-only without). non-trivial = world has a cycle or >= 3 $refs",
 		NumCases: c03NumCases,
 		Run:      c03Run,
 		Floors: func(env *core.Env) []string {
-			return append(worldFloors(env)[:8], "kept-refs", "kept.absolute-form", "kept.into-root", "kept.into-other-document", "world.acyclic", "world.cyclic", "denormalize-pairs", "feat.layout.ports", "feat.layout.hosts", "feat.layout.schemes")
+			return append(worldFloors(env)[:8], "kept-refs", "kept.absolute-form", "kept.into-root", "kept.into-other-document", "world.acyclic", "world.cyclic", "denormalize-pairs", "whole-base-document-referenced-by-name", "no-base-location", "kept-refs(no-base)", "feat.layout.ports", "feat.layout.hosts", "feat.layout.schemes")
 		},
 		Assumptions: []string{"surface form is checked in the weak reading: fragment-only is required for targets inside the root document, other targets may be relative or absolute"},
 	})
